@@ -1,5 +1,5 @@
 // History monitor for LabeledDirectedGraph<L> / LabeledUndirectedGraph<L>.
-// Compiled once per label kind (-DVK_LABEL=0..6). Serves C01, C02, C03, C06,
+// Compiled once per label kind (-DVK_LABEL=0..7). Serves C01, C02, C03, C06,
 // C16 (simple and labelled classes).
 #include "hist.hpp"
 #include "snapshot.hpp"
@@ -23,6 +23,8 @@ using LabelT = double;
 using LabelT = char;
 #elif VK_LABEL == 5
 using LabelT = std::string;
+#elif VK_LABEL == 7
+using LabelT = EmptyLabel;
 #else
 using LabelT = UserLabel;
 #endif
@@ -40,8 +42,14 @@ struct Op {
     uint64_t stamp = 0; // 0 = default-constructed label
     bool force = false;
     unsigned k = 0;
+    bool rejected = false; // out-of-range index or shrinking resize: must throw, denotes no change
     std::string str() const {
         std::ostringstream o;
+        if (rejected) o << "rejected: ";
+        if (rejected && kind == RESIZE) {
+            o << "resize(" << k << ")";
+            return o.str();
+        }
         switch (kind) {
         case ADD_L: o << "addEdge(" << i << "," << j << ",label#" << stamp << (force ? ",force=true)" : ")"); break;
         case ADD_D: o << "addEdge(" << i << "," << j << (force ? ",force=true)" : ")"); break;
@@ -108,6 +116,7 @@ template <class G, class L> struct Subject {
     std::map<Edge, std::pair<int, uint64_t>> ghosts; // absent pair -> (how it went, last stamp)
     std::set<Edge> recreated;
     bool lastWasNoop = false;
+    bool notRejected = false; // a call that had to be rejected was not (C07's verdict): the history is abandoned
     unsigned removalsOfLabelled = 0;
 
     explicit Subject(unsigned n0) : g(n0) {
@@ -138,6 +147,7 @@ template <class G, class L> struct Subject {
     }
     // whether, according to the model, the op leaves the graph as it is
     bool isNoop(const Op &op) const {
+        if (op.rejected) return true;
         switch (op.kind) {
         case ADD_L:
         case ADD_D: return !op.force && m.has(op.i, op.j);
@@ -172,7 +182,7 @@ template <class G, class L> struct Subject {
         // whether setEdgeLabel must reject is decided by what the graph itself says is an edge (if that disagrees with the
         // history, it is C01/C02's verdict, reported by the structural observers)
         bool realHas = true;
-        if (op.kind == SETLABEL) realHas = g.hasEdge(op.i, op.j);
+        if (op.kind == SETLABEL && !op.rejected) realHas = g.hasEdge(op.i, op.j);
         Exc ex = classify([&] {
             switch (op.kind) {
             case ADD_L: g.addEdge(op.i, op.j, labelOf<L>(op.stamp), op.force); break;
@@ -190,7 +200,7 @@ template <class G, class L> struct Subject {
             case LOOPS: g.removeSelfLoops(); break;
             case VERTEX: g.removeVertexFromEdgeList(op.i); break;
             case CLEAR: g.clearEdges(); break;
-            case RESIZE: g.resize(g.getSize() + op.k); break;
+            case RESIZE: g.resize(op.rejected ? op.k : g.getSize() + op.k); break;
             case SETLABEL:
                 if (op.force) g.setEdgeLabel(op.i, op.j, labelOf<L>(op.stamp), true); // only generated on present edges (forced on an absent one is outside C03)
                 else g.setEdgeLabel(op.i, op.j, labelOf<L>(op.stamp));
@@ -198,6 +208,10 @@ template <class G, class L> struct Subject {
             case DEDUP: g.removeDuplicateEdges(); break;
             }
         }, &what);
+        if (op.rejected) {
+            if (ex != (op.kind == RESIZE ? EX_INVALID_ARGUMENT : EX_OUT_OF_RANGE)) notRejected = true;
+            return "";
+        }
         bool expectThrow = (op.kind == SETLABEL && !realHas);
         if (expectThrow) {
             if (ex != EX_INVALID_ARGUMENT)
@@ -305,11 +319,11 @@ template <class G, class L> std::string checkLabels(const Subject<G, L> &s, Labe
                         o << "hasEdge(" << i << "," << j << ",its label): expected true";
                         return o.str();
                     }
-                    if (s.g.hasEdge(i, j, other)) {
+                    if (!LT<L>::singleValued && s.g.hasEdge(i, j, other)) {
                         o << "hasEdge(" << i << "," << j << ",a different label): expected false";
                         return o.str();
                     }
-                    if (it->second.stamp != 0 && s.g.hasEdge(i, j, L())) {
+                    if (!LT<L>::singleValued && it->second.stamp != 0 && s.g.hasEdge(i, j, L())) {
                         o << "hasEdge(" << i << "," << j << ",L()): expected false";
                         return o.str();
                     }
@@ -356,7 +370,7 @@ template <class G, class L> struct Monitor {
     ObsCounters oc;
     LabelCounters lc;
     uint64_t callsByKind[KIND_COUNT] = {0};
-    uint64_t scalePairs = 0, longHistories = 0, bursts = 0, noopChecks = 0, rejectedSetLabel = 0, calls = 0, scaleHistories = 0, maxDegreeSeen = 0, maxEdgesSeen = 0;
+    uint64_t rejectedCalls = 0, rejectedThenGrown = 0, abandonedNotRejected = 0, scalePairs = 0, longHistories = 0, bursts = 0, noopChecks = 0, rejectedSetLabel = 0, calls = 0, scaleHistories = 0, maxDegreeSeen = 0, maxEdgesSeen = 0;
     uint64_t transitions[KIND_COUNT][KIND_COUNT] = {{0}};
 
     Monitor(Reporter &R, const HistConfig &cfg, std::string cls) : R(R), cfg(cfg), cls(std::move(cls)) {}
@@ -440,12 +454,42 @@ template <class G, class L> struct Monitor {
         return op;
     }
 
+    // a call the library must reject (see pickRejected), drawn from the calls the property lists
+    Op genRejected(Rng &r, const Subject<G, L> &s, uint64_t &stampCtr, unsigned &growBy) {
+        Op op;
+        op.rejected = true;
+        RejectedArgs x = pickRejected(r, s.m.n);
+        growBy = x.growBy;
+        if (x.shrink) {
+            op.kind = RESIZE;
+            op.k = x.newSize;
+            return op;
+        }
+        op.i = x.a;
+        op.j = x.b;
+        unsigned roll = r.u(cfg.force ? 6 : (directed ? 12 : 10));
+        if (roll < 3) { op.kind = ADD_L; op.stamp = ++stampCtr; }
+        else if (roll < 5) op.kind = ADD_D;
+        else if (roll < 6) op.kind = REMOVE;
+        else if (roll < 7) op.kind = REMOVE;
+        else if (roll < 8) { op.kind = VERTEX; if (op.i < s.m.n) op.i = op.j; }
+        else if (roll < 10) { op.kind = SETLABEL; op.stamp = ++stampCtr; op.force = !cfg.obsLabel && r.chance(1, 3); }
+        else if (roll < 11) { op.kind = ADDREC_L; op.stamp = ++stampCtr; }
+        else op.kind = ADDREC_D;
+        if (cfg.force && (op.kind == ADD_L || op.kind == ADD_D)) op.force = r.chance(2, 3);
+        return op;
+    }
+
     void flush() {
         oc.flush(R);
         R.count("calls_total", calls);
         for (int k = 0; k < KIND_COUNT; ++k)
             if (callsByKind[k]) R.count(std::string("calls_") + kindName(k), callsByKind[k]);
         R.count("noop_exactness_checks", noopChecks);
+        R.count("rejected_calls_inside_histories", rejectedCalls);
+        R.count("rejected_calls_followed_by_resize_making_the_index_valid", rejectedThenGrown);
+        R.count("histories_abandoned_call_not_rejected", abandonedNotRejected);
+        rejectedCalls = rejectedThenGrown = abandonedNotRejected = 0;
         R.count("long_histories_2000_to_4500_calls", longHistories);
         longHistories = 0;
         R.count("scale_pairs_with_four_hubs", scalePairs);
@@ -528,7 +572,9 @@ template <class G, class L> struct Monitor {
         uint64_t stampCtr = (sub % 1000) * 1000;
         Op prevOp, burstOp;
         bool havePrev = false;
-        unsigned burstLeft = 0;
+        unsigned burstLeft = 0, pendingGrow = 0;
+        // every third history has calls in it that the library must reject
+        bool withRejected = sub % 3 == 1;
         R.describeCase = [&] {
             return "{\"class\": " + q(cls) + ", \"start_size\": " + std::to_string(n0) + ", \"history\": " + s.histJson() +
                    ", \"model_after\": " + q(s.m.str()) + "}";
@@ -560,20 +606,40 @@ template <class G, class L> struct Monitor {
                 }
                 --burstLeft;
             }
-            prevOp = op;
-            havePrev = true;
+            if (withRejected && burstLeft == 0) {
+                if (pendingGrow) {
+                    op = Op();
+                    op.kind = RESIZE;
+                    op.k = pendingGrow;
+                    pendingGrow = 0;
+                    ++rejectedThenGrown;
+                } else if (r.chance(1, checkEvery > 1 ? 40 : 9)) {
+                    unsigned growBy = 0;
+                    op = genRejected(r, s, stampCtr, growBy);
+                    ++rejectedCalls;
+                    if (growBy && s.m.n + growBy <= maxN + 4 && r.chance(2, 3)) pendingGrow = growBy;
+                }
+            }
+            if (!op.rejected) {
+                prevOp = op;
+                havePrev = true;
+            }
             std::vector<std::vector<VertexIndex>> before;
             bool noop = s.isNoop(op);
             // "changes nothing" is stated for re-adding an existing edge, removing an absent one and (C07) rejected calls;
             // other calls that happen to have nothing to do are only held to the model, not to list order
-            bool exactNoop = noop && cfg.obsStruct && (op.kind == ADD_L || op.kind == ADD_D || op.kind == REMOVE || op.kind == SETLABEL);
+            bool exactNoop = noop && !op.rejected && cfg.obsStruct && (op.kind == ADD_L || op.kind == ADD_D || op.kind == REMOVE || op.kind == SETLABEL);
             if (exactNoop) before = orderedLists(s.g);
             std::string err = s.apply(op);
             ++calls;
             ++callsByKind[op.kind];
             if (prevKind >= 0) transitions[prevKind][op.kind]++;
             prevKind = op.kind;
-            if (op.kind == SETLABEL && noop) ++rejectedSetLabel;
+            if (op.kind == SETLABEL && noop && !op.rejected) ++rejectedSetLabel;
+            if (s.notRejected) {
+                ++abandonedNotRejected;
+                return;
+            }
             if (!err.empty()) {
                 R.violation(cls + "/" + kindName(op.kind) + "/exception", err);
                 return;
@@ -629,7 +695,7 @@ template <class G, class L> struct Monitor {
         // replay with force off; resize first op is implicit in start size
         unsigned n0 = s.m.n;
         for (auto &op : s.hist)
-            if (op.kind == RESIZE) n0 -= op.k;
+            if (op.kind == RESIZE && !op.rejected) n0 -= op.k;
         u.g.resize(n0);
         u.m.n = n0;
         for (auto op : s.hist) {
